@@ -14,14 +14,18 @@ META = {
              "condition alone) must be refuted by the exact rank. The harness compares the real operators (entries, action "
              "on a vector, grid spacing), PrecisionFiniteDifference and the GMRF (rank, log pseudo-determinant, quadratic "
              "form, sqrtprec, orders 0-2) / LMRF / CMRF (vector and scalar location, every boundary condition of the "
-             "first-order operator) quantities with them for every configuration."),
+             "first-order operator) quantities with them for every configuration. Reassign part (Evaluate / Assign on ONE prior "
+             "object, invariant RePriorFresh, deviation StaleCacheAfterAssign refuted): mean / location and precision / scale of one "
+             "GMRF (orders 0-2) / LMRF / CMRF object are replaced through the public attributes, cold, warm and evaluating after "
+             "each assignment; log-density (rank, log pseudo-determinant, quadratic form), sqrtprec, rank and D(x - location) must be "
+             "those of the current parameters (integer facts emitted by TLC)."),
     "note": ("Bounded sizes; sign convention of `backward` rows and multiplicity of the periodic wrap row are not documented "
              "and are recorded as observations, not asserted. log pseudo-determinant evaluated numerically from TLC's "
              "integer precision matrix."),
     "technique": "TLA+ spec (DiffOps) model-checked with TLC; TLC-emitted cases replayed into cuqi.operator / MRF priors",
 }
 
-import itertools, math
+import itertools, json, math
 import numpy as np
 
 
@@ -240,13 +244,176 @@ def check_priors(ctx, c, chosen, order):
     check_mrf_logpdfs(ctx, c, D, bc, geom, x, mean, keyo)
 
 
+# ------------------------------------------------------------------ Reassign part (one prior object, parameters assigned)
+RE_MODES = ("cold", "warm", "each")     # A* E (assign first, evaluate later) / E A* E / (E A)* E  of DiffOps.tla's Reassign part
+
+
+def _q(v):
+    return float(v[0]) / float(v[1])
+
+
+def _re_key(rc):
+    return "pd=%d/n=%d/bc=%s/order=%d" % (rc["pd"], rc["n"], rc["bc"], rc["order"])
+
+
+def _re_expected(rc, E, fam, P, D):
+    """expected log-density at x from the spec's integer facts of the CURRENT parameters"""
+    par = _q(E["par"])
+    Dr = np.array(E["Dr"], dtype=float)
+    if fam == "GMRF":
+        return 0.5 * (rc["rank"] * (math.log(par) - math.log(2 * math.pi)) + _pdet(P, rc["rank"])) - 0.5 * par * float(E["quad"])
+    if fam == "LMRF":
+        return len(Dr) * (-math.log(2 * par)) - np.abs(Dr).sum() / par
+    return float(np.sum(np.log(par / (math.pi * (par ** 2 + Dr ** 2)))))
+
+
+def _re_observe(ctx, rc, fam, dist, E, P, D, x, sig, real_bc):
+    par = _q(E["par"])
+    loc = np.array(E["loc"], dtype=float)
+    dim = len(x)
+    exp = _re_expected(rc, E, fam, P, D)
+    ctx.case(("reassign", sig), facet="reassign/%s" % fam)
+    try:
+        got = _num(dist.logpdf(np.array(x)))
+        got0 = _num(dist.logpdf(np.array(loc)))
+    except Exception as e:
+        ctx.mismatch("reassign/%s_logpdf/%s/raises" % (fam.lower(), sig), rc, "logpdf raises after a public assignment: %r" % e, exp, repr(e))
+        return
+    what = {"GMRF": "GMRF.logpdf is not the density of the field with its CURRENT mean and precision (rank, log pseudo-determinant, "
+                    "delta (x-mean)' P (x-mean))",
+            "LMRF": "LMRF.logpdf is not the Laplace density of D(x-location) with the CURRENT location and scale",
+            "CMRF": "CMRF.logpdf is not the Cauchy density of D(x-location) with the CURRENT location and scale"}[fam]
+    tol = 1e-9 if (fam != "GMRF" or real_bc == "zero") else 1e-6
+    if not abs(exp - got) <= tol * max(1, abs(exp)):
+        ctx.mismatch("reassign/%s_logpdf/%s" % (fam.lower(), sig), rc, what, exp, got)
+        return
+    if fam == "GMRF":
+        # quadratic form with the current mean and precision; the rank and square-root precision the field reports
+        q_code, q = -2 * (got - got0), par * float(E["quad"])
+        if not abs(q_code - q) <= 1e-9 * max(1, abs(q)):
+            ctx.mismatch("reassign/gmrf_quadratic/" + sig, rc, "GMRF quadratic form is not delta (x-mean)' P (x-mean) of the current parameters", q, q_code)
+        try:
+            S = dist.sqrtprec
+            S = np.asarray(S.todense() if hasattr(S, "todense") else S, dtype=float)
+        except Exception as e:
+            ctx.mismatch("reassign/gmrf_sqrtprec/%s/raises" % sig, rc, "sqrtprec raises after a public assignment: %r" % e)
+            return
+        t = 1e-12 if real_bc == "zero" else 1e-6
+        if S.shape[1:] != (dim,) or not np.allclose(S.T @ S, par * P, atol=t * par * max(1, np.abs(P).max())):
+            ctx.mismatch("reassign/gmrf_sqrtprec/" + sig, rc, "sqrtprec' sqrtprec is not delta P for the current precision", par * P,
+                         S.T @ S if S.ndim == 2 else S)
+        rank_attr = getattr(dist, "rank", None)
+        if isinstance(rank_attr, (int, float, np.integer, np.floating)) and rank_attr != rc["rank"]:
+            ctx.mismatch("reassign/gmrf_rank_property/" + sig, rc, "GMRF.rank is not the rank of its precision", rc["rank"], rank_attr)
+    if fam == "LMRF":
+        try:
+            pv = _num(dist.pdf(np.array(x)))
+        except Exception as e:
+            pv = float("nan")
+        if not abs(pv - math.exp(exp)) <= 1e-9 * max(1e-300, math.exp(exp)):
+            ctx.mismatch("reassign/lmrf_pdf/" + sig, rc, "LMRF.pdf is not exp of the Laplace log-density of the current parameters", math.exp(exp), pv)
+
+
+def reassign_case(ctx, rc, seen):
+    """one emitted behaviour (order of the two assignment units) on real GMRF / LMRF / CMRF objects"""
+    import cuqi, io, contextlib
+    from cuqiverif import families_common as fc
+    fam, n, pd = rc["fam"], rc["n"], rc["pd"]
+    dim = n if pd == 1 else n * n
+    D, P = _arr(rc["D"], dim), _arr(rc["P"], dim)
+    x = np.array(rc["x"], dtype=float)
+    x0 = x + 1.0
+    geoms = [("geomobj", (lambda: cuqi.geometry.Continuous1D(n)) if pd == 1 else (lambda: cuqi.geometry.Image2D((n, n))))]
+    # the GMRF of order 0 (operator `none`) under every boundary-condition name
+    reals = [(rc["bc"], rc["order"])] if rc["bc"] != "none" else [(b, 0) for b in ("zero", "periodic", "neumann")]
+    cls = getattr(cuqi.distribution, fam)
+    frm = rc["from"]
+    locname, parname = ("mean", "prec") if fam == "GMRF" else ("location", "scale")
+    nseq = 0
+    for real_bc, real_order in reals:
+        ways = ["ndarray"] + (["scalar"] if frm["locconst"] else []) + (["prec1array"] if fam == "GMRF" else [])
+        for way in ways:
+            def build():
+                loc = float(frm["loc"][0]) if way == "scalar" else np.array(frm["loc"], dtype=float)
+                kw = {"order": real_order} if fam == "GMRF" else {}
+                with contextlib.redirect_stdout(io.StringIO()):
+                    return cls(loc, _q(frm["par"]), bc_type=real_bc, geometry=geoms[0][1](), **kw)
+            L = 2
+            order = tuple(rc["units"])
+            for mode in RE_MODES:
+                for m in ((L,) if mode == "each" else range(2 if mode == "warm" else 1, L + 1)):
+                    k = (fam, _re_key(rc), real_bc, real_order, way, json.dumps(frm["loc"]), json.dumps(frm["par"]), mode, order[:m])
+                    if k in seen:
+                        continue
+                    seen.add(k)
+                    try:
+                        dist = build()
+                    except Exception as e:
+                        ctx.observations.setdefault("reassign_construct_refused", {})["%s/%s" % (fam, real_bc)] = repr(e)[:100]
+                        continue
+                    if mode != "cold":
+                        fc.warm_up(dist, x0)
+                    names = []
+                    for i, t in enumerate(rc["trail"][:m]):
+                        E = t["expect"]
+                        if t["unit"] == 1:
+                            nm, val = locname, (float(E["loc"][0]) if (way == "scalar" and E["locconst"]) else np.array(E["loc"], dtype=float))
+                        else:
+                            nm, val = parname, (np.array([_q(E["par"])]) if way == "prec1array" else _q(E["par"]))
+                        names.append(nm)
+                        try:
+                            setattr(dist, nm, val)
+                        except Exception as e:      # a refused assignment changes nothing: observation
+                            ob = ctx.observations.setdefault("reassign_refused", {})
+                            ob["%s.%s" % (fam, nm)] = ob.get("%s.%s" % (fam, nm), 0) + 1
+                            break
+                        if mode == "each" or i == m - 1:
+                            sig = "%s/real=%s:%s/mode=%s/assigned=%s" % (_re_key(rc).replace("bc=none/order=1", "bc=%s/order=0" % real_bc), way,
+                                                                         "order%d" % real_order, mode, "+".join(names))
+                            with contextlib.redirect_stdout(io.StringIO()):
+                                _re_observe(ctx, rc, fam, dist, E, P, D, x, sig, real_bc)
+                    else:
+                        nseq += 1
+    return nseq
+
+
+def run_reassign(ctx, chosen_wm):
+    from cuqiverif import tlc as _tlc
+    from cuqiverif.core import MachineryError
+    res = ctx.tlc("DiffOps", cfg="DiffOps.reassign.%s.cfg" % ctx.tier, workers=8, timeout=1500)
+    ctx.model_must_hold(res, "DiffOps/reassign")
+    cases = [c for c in res.cases if c.get("kind") == "reassign"]
+    _tlc.cleanup(res)
+    dev = ctx.tlc("DiffOps", cfg="DiffOps.dev_reassign_stale.cfg", workers=2, timeout=900, expect_violation=True)
+    _tlc.cleanup(dev)
+    if dev.violated != "RePriorFresh":
+        raise MachineryError("deviation StaleCacheAfterAssign was not refuted (got %r): RePriorFresh is vacuous" % dev.violated)
+    ctx.observations.setdefault("deviation_runs", {})["DiffOps.dev_reassign_stale.cfg"] = "StaleCacheAfterAssign -> RePriorFresh"
+    per = {}
+    seen, n = set(), 0
+    for rc in sorted(cases, key=lambda c: (c["fam"], _re_key(c), c["wm"], json.dumps(c["from"]["par"]), json.dumps(c["units"]))):
+        if rc["bc"] == "periodic" and chosen_wm.get(_re_key(rc)) != rc["wm"]:
+            continue                              # the other wrap-multiplicity variant is the operator of the code
+        per[rc["fam"]] = per.get(rc["fam"], 0) + 1
+        n += reassign_case(ctx, rc, seen)
+    missing = [f for f in ("GMRF", "LMRF", "CMRF") if not per.get(f)]
+    if missing or not n:
+        raise MachineryError("Reassign part of DiffOps.tla: no behaviour replayed for %r" % (missing or "any family"))
+    ctx.observations["reassign_behaviours_per_family"] = per
+    ctx.observations["reassign_sequences_replayed"] = n
+    g = [c for c in cases if c["fam"] == "GMRF" and c["bc"] == "neumann" and c["n"] == 3 and c["pd"] == 1]
+    if g:
+        ctx.sample({"reassign": {k: g[0][k] for k in ("fam", "pd", "n", "bc", "order", "rank", "x", "units", "from", "trail")}})
+    return n
+
+
 def run_config(ctx, variants):
     """variants: the TLC cases of one (pd, n, bc, order) (one per wrap multiplicity)."""
     c = variants[0]
     ctx.case(("operator", _key(c)), facet="operator/pd=%d/order=%d" % (c["pd"], c["order"]))
     chosen = check_operator(ctx, c, variants)
     if chosen is None:
-        return
+        return None
     if c["bc"] == "periodic":
         ctx.observations.setdefault("periodic_wrap_multiplicity", {})[_key(c)] = chosen["wm"]
     if c["bc"] in ("zero", "periodic", "neumann"):
@@ -269,6 +436,7 @@ def run_config(ctx, variants):
             ch0 = dict(chosen, rank=(c["n"] if c["pd"] == 1 else c["n"] ** 2))
             check_precision(ctx, c0, ch0, 0)
             check_priors(ctx, c0, ch0, 0)
+    return chosen
 
 
 def run(ctx):
@@ -289,14 +457,18 @@ def run(ctx):
         groups.setdefault(_key(c), []).append(c)
     if not groups:
         raise MachineryError("no cases emitted by DiffOps")
+    chosen_wm = {}
     for k in sorted(groups):
-        run_config(ctx, groups[k])
+        ch = run_config(ctx, groups[k])
+        if ch is not None:
+            chosen_wm[k] = ch["wm"]
+    nre = run_reassign(ctx, chosen_wm)
     ctx.sample({"case": {k: groups[sorted(groups)[3]][0][k] for k in ("pd", "n", "bc", "order", "wm", "D", "P", "rank")}})
     ctx.sample({"case": {k: groups[sorted(groups)[-1]][0][k] for k in ("pd", "n", "bc", "order", "wm", "rank", "nullbasis")}})
     ctx.rule = ("one case per (physical dim, n, boundary condition, order) emitted by TLC from DiffOps.tla with exact integer "
                 "D, P, null basis, rank; non-trivial = distinct configuration x check kind (operator, dx, precision, gmrf, lmrf/cmrf)")
     ctx.exhaustive = True
-    ctx.traces = len(groups)
+    ctx.traces = len(groups) + nre
     ctx.assumptions += ["numpy.linalg.eigvalsh for the log pseudo-determinant of TLC's integer precision matrix",
                         "sizes bounded by the cfg (MaxN1, MaxN2)"]
 
@@ -304,6 +476,8 @@ def run(ctx):
 def replay(ctx, case):
     if case.get("kind") == "model":
         return run(ctx)
+    if case.get("kind") == "reassign":
+        return reassign_case(ctx, case, set())
     # re-emit this configuration's variants from TLC to stay spec-driven
     res = ctx.tlc("DiffOps", cfg="DiffOps.thorough.cfg", workers=16, timeout=1500)
     variants = [c for c in res.cases if _key(c) == _key(case) or (c["pd"], c["n"]) == (case["pd"], case["n"]) and c["bc"] == "none" and case["order"] == 0 and c["order"] == 1]
